@@ -119,9 +119,15 @@ func (c *Command) UnmarshalXML(d *xml.Decoder, start xml.StartElement) error {
 		switch tt := t.(type) {
 
 		case xml.StartElement:
-			// Decode sub-elements
+			// Decode sub-elements. The command's own children (actions, note, the flags) are in
+			// the command's namespace; <x/> and <set/> are told by theirs below. An element of
+			// another namespace that only shares a local name with them is generic content.
 			var err error
-			switch tt.Name.Local {
+			local := tt.Name.Local
+			if tt.Name.Space != start.Name.Space && local != "x" && local != "set" {
+				local = ""
+			}
+			switch local {
 
 			case "actions":
 				a := Actions{}
@@ -146,7 +152,7 @@ func (c *Command) UnmarshalXML(d *xml.Decoder, start xml.StartElement) error {
 				// the flag children that Command marshals from its pointer fields
 				flag := map[string]**struct{}{"bad-action": &c.BadAction, "bad-locale": &c.BadLocale,
 					"bad-payload": &c.BadPayload, "bad-sessionid": &c.BadSessionId,
-					"malformed-action": &c.MalformedAction, "session-expired": &c.SessionExpired}[tt.Name.Local]
+					"malformed-action": &c.MalformedAction, "session-expired": &c.SessionExpired}[local]
 				*flag = &struct{}{}
 				err = d.Skip()
 			case "set":
